@@ -24,6 +24,8 @@ type vhTransport struct {
 	rx         func(t *vhTransport) (envelope, error)
 	lastRx     *Session
 	sendFails  bool
+	failSends  int // the next n sends fail
+	txFailFin  int // failed attempts to send a finished session
 	setFails   bool
 	rxErrs     int
 	rxAliens   int
@@ -38,7 +40,15 @@ func (t *vhTransport) Send(_ context.Context, e envelope) error {
 	if t.closed {
 		return errVhStub
 	}
+	if t.failSends > 0 {
+		t.failSends--
+		t.calls = append(t.calls, "send-fail")
+		return errVhStub
+	}
 	if t.sendFails && nondetBool("tx.fail") {
+		if s, ok := e.(*Session); ok && s.State == SessionStateFinished {
+			t.txFailFin++
+		}
 		t.calls = append(t.calls, "send-fail")
 		return errVhStub
 	}
